@@ -15,7 +15,8 @@ RULE = ("for every read count 1..125 x payload classes {00, FF, FF/FE, 7F/80, ra
         "incl. a duplicated frame; write / write-multi echoes over the signed 16-bit value range and payload sizes; AA55 "
         "read/settings/runtime/device-info answers of payload length 0..255 x payload classes: the frame built by the "
         "independent reference encoder must make the real validator return True; an end-to-end part serves such frames "
-        "through the real protocol objects and demands success with one transmission and exactly the served payload; "
+        "through the real protocol objects and demands success with one transmission and exactly the served payload; two "
+        "Modbus/TCP inverter objects with overlapping requests must each accept the answer carrying their own transaction id; "
         "distinct = distinct (framing, kind, count or length, payload class, trailing class) tuples")
 ASSUMPTIONS = [
     "a conforming frame is what the reference encoder in refcodec builds from the Modbus specification / the AA55 "
@@ -23,7 +24,7 @@ ASSUMPTIONS = [
     "with trailing bytes after an RTU frame the served payload must be the prefix of response_data() (the library's "
     "trim keeps the trailing bytes; sensors address the payload by offset)",
 ]
-MUST = ["aa55_sum_ge_8000", "aa55_sum_ge_10000", "rtu_trailing", "end_to_end_success", "negative_write_echo", "overlapping_tcp_inverters",
+MUST = ["aa55_sum_ge_8000", "aa55_sum_ge_10000", "rtu_trailing", "end_to_end_success", "negative_write_echo", "overlapping_tcp_inverters", "same_object_sequences",
         "accepted_rtu", "accepted_tcp", "accepted_aa55"]
 EXHAUSTIVE = {"quick": False, "thorough": False}
 CLASSES = ["random", "ff", "00", "7f80", "fe", "aa55"]
@@ -223,6 +224,51 @@ def overlap(spec, part):
                              f"({run.stop or ''})", {"overlap": True, "seed": spec["seed"], "i": i})
 
 
+def same_object(spec, part):
+    """(a) two tasks use ONE inverter object at the same time with reads of different lengths; (b) a request follows one whose first
+    transmission left a lone fragment behind (kept-alive UDP socket): every conforming answer must be accepted at once."""
+    rnd = random.Random(spec["seed"])
+    for i in range(spec["n"]):
+        framing = rnd.choice(("rtu", "tcp"))
+        transport = "tcp" if framing == "tcp" else "udp"
+        ka = rnd.random() < 0.6
+        if i % 2 == 0:
+            cA, cB = rnd.sample((1, 2, 5, 10, 40, 125), 2)
+            sc = {"transport": transport, "framing": framing, "keep_alive": ka, "T": 1, "R": 1,
+                  "by_reg": {2000: [["delay", 0.3]], 3000: ["now"]}, "after": "now",
+                  "tasks": [{"start": 0.0, "steps": [["read", 2000, cA]]}, {"start": rnd.choice((0.0, 0.1, 0.29)), "steps": [["read", 3000, cB]]}]}
+            want_tx = {2000: 1, 3000: 1}
+            label = f"two concurrent reads ({cA} and {cB} registers)"
+        else:
+            cA = rnd.choice((5, 10, 20, 60))
+            cB = rnd.choice((1, 2, 3))
+            hdr = 5 if framing == "rtu" else 9
+            LA, LB = hdr + 2 + 2 * cA if framing == "rtu" else 9 + 2 * cA, (7 + 2 * cB if framing == "rtu" else 9 + 2 * cB)
+            k = max(hdr, LA - LB)               # the fragment misses exactly as many bytes as request B's whole answer has
+            sc = {"transport": transport, "framing": framing, "keep_alive": ka, "T": 1, "R": 1,
+                  "by_reg": {2000: [["frag1", k], "now"], 3000: ["now"]}, "after": "now",
+                  "tasks": [{"start": 0.0, "steps": [["read", 2000, cA], ["read", 3000, cB]]}]}
+            want_tx = {2000: 2, 3000: 1}
+            label = f"read of {cB} registers after a read whose first answer was a lone {k}-byte fragment"
+        run = engine.run_scenario(sc, quiesce=False)
+        part.evaluations += 1
+        part.count("same_object_sequences")
+        part.see(f"sameobj|{framing}|{ka}|{i % 2}|{cA}|{cB}")
+        parse = rc.parse_rtu_request if framing == "rtu" else rc.parse_tcp_request
+        ntx = {}
+        for e in run.events:
+            if e[1] == "tx":
+                r = parse(e[4])["reg"]
+                ntx[r] = ntx.get(r, 0) + 1
+        for rec in run.calls:
+            reg = rec["step"][1]
+            if run.stop or rec["outcome"] != "ok" or ntx.get(reg) != want_tx[reg]:
+                part.violate(f"C02/{framing}/conforming-answer-not-delivered",
+                             f"{label}: request for register {reg} ended {rec['outcome']} after {ntx.get(reg)} transmissions "
+                             f"(expected success after {want_tx[reg]}) {run.stop or ''}", {"sameobj": True, "seed": spec["seed"], "i": i})
+                break
+
+
 def plan(tier, seed):
     specs = []
     stride = 8 if tier == "quick" else 1
@@ -233,6 +279,7 @@ def plan(tier, seed):
     for i in range(4 if tier == "quick" else 16):
         specs.append({"mode": "e2e", "seed": f"{seed}:C02:E:{i}", "n": 600 if tier == "quick" else 4000})
     specs.append({"mode": "overlap", "seed": f"{seed}:C02:O", "n": 60 if tier == "quick" else 600})
+    specs.append({"mode": "sameobj", "seed": f"{seed}:C02:S", "n": 200 if tier == "quick" else 2000})
     return specs
 
 
@@ -243,6 +290,8 @@ def run_shard(spec):
         direct(spec, part)
     elif spec["mode"] == "overlap":
         overlap(spec, part)
+    elif spec["mode"] == "sameobj":
+        same_object(spec, part)
     else:
         end_to_end(spec, part)
     # C01 contract findings that surface here are C01's business; keep only C02 keys
@@ -254,6 +303,9 @@ def run_shard(spec):
 def replay(case):
     g = env.goodwe()
     part = Part()
+    if case.get("sameobj"):
+        same_object({"seed": case["seed"], "n": case["i"] + 1}, part)
+        return [{"key": v["key"], "msg": v["msg"]} for v in part.violations]
     if case.get("overlap"):
         overlap({"seed": case["seed"], "n": case["i"] + 1}, part)
         return [{"key": v["key"], "msg": v["msg"]} for v in part.violations]
